@@ -353,7 +353,7 @@ void forms_stage(const std::string& prop) {
   for (int ci = 0; ci < n; ci++) {
     if (!args().replay() && !mine(900000 + (uint64_t)ci)) continue;
     if (args().only_case >= 0 && args().only_case != ci) continue;
-    auto want = [&](const char* t) { return args().only_type.empty() || args().only_type == std::string("forms:") + t; };
+    auto want = [&](const char* t) { return args().only_type.empty() || args().only_type == "forms:*" || args().only_type == std::string("forms:") + t; };
     if (want("i64")) one_case<std::int64_t>("i64", (uint64_t)ci, prop, SchemaOf<std::int64_t>());
     if (want("string")) one_case<std::string>("string", (uint64_t)ci, prop, SchemaOf<std::string>());
     if (want("vector<u32>")) one_case<std::vector<std::uint32_t>>("vector<u32>", (uint64_t)ci, prop, SchemaOf<std::vector<std::uint32_t>>());
